@@ -11,9 +11,9 @@ CLAIMED = {
          "TLC checks that the terminal state is exactly the least demand closure (Denote.tla) for all schedules; real runs: forms added per attempt, field map, solving set and solution() keys must equal the specification's; results judged against the closure.", "6/C04"),
  "C05": ("model_checking", "TLC model checking with a nondeterministic scheduler (EqualsDenotation) + real runs under permuted schedules (guarded hook), request orders and file/prompt splits compared with each other",
          "The design model makes every choice point nondeterministic and TLC shows every terminal state equals the schedule-free denotation; the real solver is run under natural, reversed and random schedules through the guarded hook, with shuffled request order and file/prompt splits, every run validated against SolverTrace.tla and all runs with equal inputs required to return identical results.", "6/C05"),
- "C06": ("model_checking", "TLC model checking incl. liveness (<>Terminal under WF) and work-bound ghosts + Tracker.tla object model + trace validation of drains",
-         "TLC checks termination without state constraint, AskAtMostOnce, EvalBound, NoLostWaiter, NoEarlyRelease on generated programs incl. cyclic ones; each real drain must release exactly the waiters the specification computes (multiset), work counters of real runs judged by Judge.tla; the tracer bounds events so a livelock yields a finite rejected trace.", "6/C06"),
- "C13": ("model_checking", "TLC model checking (AskOnlyDemandedMissing, NoAskAfterRefusal, UnreadNotRequired) + trace validation of every prompt",
+ "C06": ("model_checking", "TLC model checking incl. liveness (<>Terminal under WF) and work-bound ghosts + Tracker.tla object model (all histories; bounded-list variant explored completely; Apalache inductive invariant in the thorough tier) + trace validation of drains",
+         "TLC checks termination without state constraint, AskAtMostOnce, EvalBound, NoLostWaiter, NoEarlyRelease on generated programs incl. cyclic ones; each real drain must release exactly the waiters the specification computes (multiset), work counters of real runs judged by Judge.tla; the tracer bounds events so a livelock yields a finite rejected trace. The real DependencyTracker's reachable transitions are validated by meaning (bag of waiters per dependency, releasable set). The natural order (NatSort.tla) is compared with sort_keys for the record only.", "6/C06"),
+ "C13": ("model_checking", "TLC model checking (AskOnlyDemandedMissing, NoAskAfterRefusal, UnreadNotRequired) + trace validation of every prompt + solve/write-back/solve histories through the real command",
          "TLC checks the prompt discipline on all schedules; each real prompt must be for an unmet input of the specification's tracker with needed_by equal to the registered waiters, never after a refusal; asked inputs judged against the program (the quoted lines really stop at that input).", "6/C13"),
  "C02": ("exploration", "TLC evaluates Lines.tla: equations generated from the instruction text of the bundled official templates (plus cited hand transcriptions) on every explored solution",
          "About 90 equations per year are generated at check time from the line instructions printed in the bundled IRS templates (add / subtract with floor / multiply by rate / smaller of / carry from schedule), matched to lines by the line number in the label, not through the program's PDF mappings; about 70 more per year are cited hand transcriptions (worksheets, status look-ups, NC forms with wording quoted from the bundled NC PDFs). Every equation is evaluated by TLC in integer cents on the stored, rounded lines of every explored real solution; carries taken from another line of the source form than the instruction names are detected from the trace's reads.", "6/C02"),
